@@ -37,3 +37,8 @@ claim('C03', 'reaching definitions, structural/affine rules on the Cython source
       'Decides necessary structural conditions from the .pyx source (not the compiled module): swept bins = populated bins, 13-bin half stencil with own-coordinate offsets and six-face skip, '
       'bin size/padding >= cutoff, six own-coordinate ghost bounds, strict squared-cutoff membership on the C02 kernel, sorted symmetric duplicate-free insertion, growth invariants, NeighborList layout and file agreement. '
       'The pair set of a concrete configuration is not decided.', 'DESIGN.md §6 C03')
+
+claim('C05', 'scripted-comparison evaluation of System.wrap over symbolic scaled positions; recording-stub evaluation of normalize/box_set (exact call sequence and arguments); alias/mutation analysis for copy-on-entry',
+      'Decides structural necessary conditions: for all 8 periodicity settings wrap moves atoms by floor(s) whole vectors along periodic directions only, writes positions through the old cell, enlarges both non-periodic bounds '
+      'independently with vectors×extent and origin+mins·V; normalize copies its input, flips (a,b,-c,origin+c) under (a×b)·c<0 holding absolute positions, rebuilds from the six lattice parameters holding scaled positions, wraps, '
+      'and asserts orthonormality before returning; box_set(scale=True) ordering; reciprocal-cache invalidation. Numerical invariance of distances is not decided.', 'DESIGN.md §6 C05')
